@@ -190,6 +190,7 @@ fn c10_flag_models() {
     assert!(core::mem::size_of::<DeviceStatus>() == 4, "C10: DeviceStatus is one 32-bit word");
     assert!(InterruptStatus::empty().bits() == 0, "C10: InterruptStatus::empty model");
     assert!(InterruptStatus::from_bits_truncate(x).bits() == x & 3, "C10: InterruptStatus::from_bits_truncate model");
+    assert!(InterruptStatus::from_bits_truncate(x).is_empty() == (x & 3 == 0), "C10: InterruptStatus::is_empty model");
     assert!(DeviceStatus::ACKNOWLEDGE.bits() == 1 && DeviceStatus::DRIVER.bits() == 2 && DeviceStatus::DRIVER_OK.bits() == 4
         && DeviceStatus::FEATURES_OK.bits() == 8 && DeviceStatus::DEVICE_NEEDS_RESET.bits() == 64
         && DeviceStatus::FAILED.bits() == 128, "C10: DeviceStatus constants");
